@@ -143,8 +143,8 @@ func (s *Server) Close() {
 // DB is one in-memory database.
 type DB struct {
 	onDeath func(string)
-	name string
-	mu   sync.Mutex
+	name    string
+	mu      sync.Mutex
 
 	st        *state
 	seqs      map[string]int64
